@@ -55,7 +55,11 @@ func eqv(a, b val) bool {
 	return !a.Null && !b.Null && a.Str == b.Str && a.I == b.I && a.S == b.S
 }
 
-var nullStringT = reflect.TypeOf(sql.NullString{})
+var (
+	nullStringT = reflect.TypeOf(sql.NullString{})
+	nullInt64T  = reflect.TypeOf(sql.NullInt64{})
+	bytesT      = reflect.TypeOf([]byte(nil))
+)
 
 func getVal(rv reflect.Value) val {
 	switch rv.Kind() {
@@ -70,6 +74,13 @@ func getVal(rv reflect.Value) val {
 		return val{I: int64(rv.Uint())}
 	case reflect.String:
 		return val{Str: true, S: rv.String()}
+	case reflect.Slice:
+		if rv.Type() == bytesT { // a binary key: nil is NULL, the bytes are compared like a string
+			if rv.IsNil() {
+				return val{Null: true}
+			}
+			return val{Str: true, S: string(rv.Bytes())}
+		}
 	case reflect.Struct:
 		if rv.Type() == nullStringT {
 			ns := rv.Interface().(sql.NullString)
@@ -78,18 +89,27 @@ func getVal(rv reflect.Value) val {
 			}
 			return val{Str: true, S: ns.String}
 		}
+		if rv.Type() == nullInt64T {
+			ni := rv.Interface().(sql.NullInt64)
+			if !ni.Valid {
+				return val{Null: true}
+			}
+			return val{I: ni.Int64}
+		}
 	}
 	panic("harness: unsupported key field type " + rv.Type().String())
 }
 
 // nullable reports whether a field of this type can hold NULL.
-func nullable(t reflect.Type) bool { return t.Kind() == reflect.Ptr || t == nullStringT }
+func nullable(t reflect.Type) bool {
+	return t.Kind() == reflect.Ptr || t == nullStringT || t == nullInt64T || t == bytesT
+}
 
 func isStrType(t reflect.Type) bool {
 	if t.Kind() == reflect.Ptr {
 		t = t.Elem()
 	}
-	return t.Kind() == reflect.String || t == nullStringT
+	return t.Kind() == reflect.String || t == nullStringT || t == bytesT
 }
 
 func setVal(rv reflect.Value, v val) {
@@ -108,9 +128,22 @@ func setVal(rv reflect.Value, v val) {
 		rv.SetUint(uint64(v.I))
 	case reflect.String:
 		rv.SetString(v.S)
+	case reflect.Slice:
+		if rv.Type() != bytesT {
+			panic("harness: unsupported key field type " + rv.Type().String())
+		}
+		if v.Null {
+			rv.Set(reflect.Zero(bytesT))
+		} else {
+			rv.SetBytes([]byte(v.S))
+		}
 	case reflect.Struct:
 		if rv.Type() == nullStringT {
 			rv.Set(reflect.ValueOf(sql.NullString{String: v.S, Valid: !v.Null}))
+			return
+		}
+		if rv.Type() == nullInt64T {
+			rv.Set(reflect.ValueOf(sql.NullInt64{Int64: v.I, Valid: !v.Null}))
 			return
 		}
 		fallthrough
@@ -209,12 +242,30 @@ func (t tuple) hostile() bool {
 // row is a pointer to a model struct.
 type row = reflect.Value
 
+// field resolves a Go field of a row; "Extra.MentorID" descends into the
+// embedded struct field Extra.
 func field(r row, name string) reflect.Value {
-	f := reflect.Indirect(r).FieldByName(name)
-	if !f.IsValid() {
-		panic("harness: no field " + name + " in " + reflect.Indirect(r).Type().String())
+	f := reflect.Indirect(r)
+	for _, part := range strings.Split(name, ".") {
+		f = f.FieldByName(part)
+		if !f.IsValid() {
+			panic("harness: no field " + name + " in " + reflect.Indirect(r).Type().String())
+		}
 	}
 	return f
+}
+
+// fieldType is the declared type of a (possibly dotted) field of a model.
+func fieldType(m *model, name string) reflect.Type { return field(reflect.New(m.typ), name).Type() }
+
+// relAt finds the relation whose Go field path is name.
+func (m *model) relAt(name string) *rel {
+	for _, r := range m.rels {
+		if r.path() == name {
+			return r
+		}
+	}
+	return nil
 }
 
 func tupleOf(r row, fields []string) tuple {
@@ -235,18 +286,16 @@ func rowString(m *model, r row) string { return rowRender(m, r, nil) }
 // scalarFields lists the column fields of a model (everything but its relations).
 func scalarFields(m *model) []string {
 	var out []string
-	for i := 0; i < m.typ.NumField(); i++ {
-		if sf := m.typ.Field(i); m.rel(sf.Name) == nil {
-			out = append(out, sf.Name)
-		}
+	for _, c := range scalarCols(m) {
+		out = append(out, c.name)
 	}
 	return out
 }
 
 type scalarCol struct {
-	idx     int
-	name    string
-	deleted bool // gorm.DeletedAt
+	idx     []int
+	name    string // Go field path ("Extra.MentorID")
+	deleted bool   // gorm.DeletedAt
 }
 
 var scalarCache = map[*model][]scalarCol{}
@@ -256,11 +305,22 @@ func scalarCols(m *model) []scalarCol {
 		return c
 	}
 	var c []scalarCol
-	for i := 0; i < m.typ.NumField(); i++ {
-		if sf := m.typ.Field(i); m.rel(sf.Name) == nil {
-			c = append(c, scalarCol{i, sf.Name, sf.Type == deletedAtT})
+	var walk func(t reflect.Type, idx []int, prefix string)
+	walk = func(t reflect.Type, idx []int, prefix string) {
+		for i := 0; i < t.NumField(); i++ {
+			sf := t.Field(i)
+			name := prefix + sf.Name
+			at := append(append([]int(nil), idx...), i)
+			switch {
+			case m.relAt(name) != nil:
+			case strings.Contains(sf.Tag.Get("gorm"), "embedded"):
+				walk(sf.Type, at, name+".")
+			default:
+				c = append(c, scalarCol{at, name, sf.Type == deletedAtT})
+			}
 		}
 	}
+	walk(m.typ, nil, "")
 	scalarCache[m] = c
 	return c
 }
@@ -280,14 +340,14 @@ func rowRender(m *model, r row, keep func(string) bool) string {
 		}
 		first = false
 		if c.deleted {
-			if rv.Field(c.idx).Interface().(gorm.DeletedAt).Valid {
+			if rv.FieldByIndex(c.idx).Interface().(gorm.DeletedAt).Valid {
 				sb.WriteString("deleted")
 			} else {
 				sb.WriteString("live")
 			}
 			continue
 		}
-		sb.WriteString(c.name + "=" + getVal(rv.Field(c.idx)).String())
+		sb.WriteString(c.name + "=" + getVal(rv.FieldByIndex(c.idx)).String())
 	}
 	sb.WriteByte('}')
 	return sb.String()
@@ -302,12 +362,29 @@ func tagOf(r row) int { return int(field(r, "Tag").Int()) }
 // ---------------------------------------------------------------- load grammar
 
 type cond struct {
-	Form string `json:"form"` // inline-gte | inline-in | inline-map | scope-ne | scope-gte-order | scope-unscoped
-	K    int    `json:"k"`
+	// inline-gte | inline-in | inline-map | inline-struct | inline-expr | inline-pk |
+	// scope-ne | scope-gte-order | scope-unscoped | scope-select
+	Form string   `json:"form"`
+	K    int      `json:"k"`
+	IDs  []int64  `json:"ids,omitempty"`  // inline-pk: primary keys (models with a single uint ID)
+	Cols []string `json:"cols,omitempty"` // scope-select: the selected columns (Go field names; keys of the relation, ID and Tag always among them)
 }
 
-func (c *cond) holds(tag int) bool {
+func (c *cond) holds(r row) bool {
+	tag := tagOf(r)
 	switch c.Form {
+	case "inline-struct": // a struct condition skips zero fields
+		return c.K == 0 || tag == c.K
+	case "inline-expr":
+		return tag >= c.K
+	case "inline-pk":
+		id := field(r, "ID").Uint()
+		for _, x := range c.IDs {
+			if uint64(x) == id {
+				return true
+			}
+		}
+		return false
 	case "inline-gte", "scope-gte-order", "on-gte":
 		return tag >= c.K
 	case "inline-in":
@@ -322,8 +399,39 @@ func (c *cond) holds(tag int) bool {
 	return true // scope-unscoped filters nothing
 }
 
-func (c *cond) args() []interface{} {
+// keeps is the column filter of a scope-select condition (nil: all columns).
+func (c *cond) keeps() func(string) bool {
+	if c == nil || c.Form != "scope-select" {
+		return nil
+	}
+	return func(n string) bool {
+		for _, x := range c.Cols {
+			if x == n {
+				return true
+			}
+		}
+		return false
+	}
+}
+
+// args renders the condition as Preload / Find arguments; tm is the model the
+// condition is applied to (nil for clause.Associations: only model-free forms).
+func (c *cond) args(tm *model) []interface{} {
 	switch c.Form {
+	case "inline-struct":
+		probe := reflect.New(tm.typ)
+		field(probe, "Tag").SetInt(int64(c.K))
+		return []interface{}{probe.Interface()}
+	case "inline-expr":
+		return []interface{}{clause.Gte{Column: clause.Column{Name: "tag"}, Value: c.K}}
+	case "inline-pk":
+		return []interface{}{append([]int64(nil), c.IDs...)}
+	case "scope-select":
+		cols := make([]string, len(c.Cols))
+		for i, x := range c.Cols {
+			cols[i] = gormFieldName(x)
+		}
+		return []interface{}{func(db *gorm.DB) *gorm.DB { return db.Select(cols) }}
 	case "inline-gte":
 		return []interface{}{"tag >= ?", c.K}
 	case "inline-in":
@@ -386,8 +494,7 @@ func (j *joinSpec) keeps() func(string) bool {
 // decidable: whether "no related row" can be told from the loaded field: a nil
 // pointer, or - value-typed field - a blank key when the key is selected.
 func (j *joinSpec) decidable(owner *model, r *rel, tm *model) bool {
-	sf, _ := owner.typ.FieldByName(r.name)
-	if sf.Type.Kind() == reflect.Ptr {
+	if fieldType(owner, r.path()).Kind() == reflect.Ptr {
 		return true
 	}
 	keep := j.keeps()
@@ -405,7 +512,7 @@ func (j *joinSpec) decidable(owner *model, r *rel, tm *model) bool {
 // joinedActual renders what a joined relation field holds ("-": nothing).
 func joinedActual(f *family, owner *model, r *rel, j *joinSpec, rec reflect.Value) string {
 	tm := f.m(r.target)
-	fv := reflect.Indirect(rec).FieldByName(r.name)
+	fv := field(rec, r.path())
 	if fv.Kind() == reflect.Ptr {
 		if fv.IsNil() {
 			return "-"
@@ -446,12 +553,14 @@ type load struct {
 	// association join; a sibling query (the same, with the last join replaced by
 	// Sibling, or by one more filler join when Sibling is nil) is derived from the
 	// same handle BEFORE this one runs, then both run and both are checked.
-	Shared  bool      `json:"shared,omitempty"`
-	Pads    int       `json:"pads,omitempty"`
-	Sibling *joinSpec `json:"sibling,omitempty"`
-	Assoc   string    `json:"assoc,omitempty"`
-	OutPtr  bool      `json:"out_ptr,omitempty"`
-	Cond    *cond     `json:"cond,omitempty"`
+	QueryFields bool      `json:"query_fields,omitempty"` // gorm.Config{QueryFields: true}
+	PrepareStmt bool      `json:"prepare_stmt,omitempty"` // Session{PrepareStmt: true}
+	Shared      bool      `json:"shared,omitempty"`
+	Pads        int       `json:"pads,omitempty"`
+	Sibling     *joinSpec `json:"sibling,omitempty"`
+	Assoc       string    `json:"assoc,omitempty"`
+	OutPtr      bool      `json:"out_ptr,omitempty"`
+	Cond        *cond     `json:"cond,omitempty"`
 }
 
 func (l load) String() string { b, _ := json.Marshal(l); return string(b) }
@@ -461,7 +570,20 @@ type node struct {
 	conds    []*cond
 	loaded   bool // the relation itself is preloaded (false: only a carrier of nested entries under a joined relation)
 	unscoped bool
-	kids     map[string]*node
+	// outerUnscoped: the scope inherited from the level above, without this
+	// level's own scope functions: a many-to-many join table is read before they run
+	outerUnscoped bool
+	kids          map[string]*node
+}
+
+// keep is the column filter of the node's scope-select condition, if any.
+func (n *node) keep() func(string) bool {
+	for _, c := range n.conds {
+		if k := c.keeps(); k != nil {
+			return k
+		}
+	}
+	return nil
 }
 
 func (n *node) kid(name string) *node {
@@ -509,7 +631,7 @@ func (l load) plan(root *model) *node {
 		if p.Path == clause.Associations {
 			continue
 		}
-		parts := strings.Split(p.Path, ".")
+		parts := relSegments(p.Path)
 		n := top.kid(parts[0])
 		if !joined[parts[0]] {
 			n.loaded = true
@@ -529,6 +651,7 @@ func (l load) plan(root *model) *node {
 	}
 	var inherit func(n *node, un bool)
 	inherit = func(n *node, un bool) {
+		n.outerUnscoped = un
 		for _, c := range n.conds {
 			if c.Form == "scope-unscoped" {
 				un = true
@@ -543,6 +666,22 @@ func (l load) plan(root *model) *node {
 		inherit(k, l.Unscoped)
 	}
 	return top
+}
+
+// embeddedNames are the embedded struct fields that carry relations: a preload
+// path may spell such a relation "Extra.Mentor"; the plan knows it as "Mentor".
+var embeddedNames = map[string]bool{"Extra": true}
+
+// relSegments splits a preload path into relation names, dropping the names of
+// embedded struct fields.
+func relSegments(path string) []string {
+	var out []string
+	for _, p := range strings.Split(path, ".") {
+		if !embeddedNames[p] {
+			out = append(out, p)
+		}
+	}
+	return out
 }
 
 // role names a key tuple of a model that feeds one of gorm's identity maps for a
@@ -597,10 +736,11 @@ func (l load) feedRoles(f *family) map[role]bool {
 // ---------------------------------------------------------------- the data graph
 
 type graph struct {
-	fam  *family
-	rows map[string][]row
-	idx  map[string]map[string][]row // lookup cache: model|fields -> typed tuple text -> rows (table order)
-	desc string                      // compact description (wide graphs), "" = render every row
+	fam   *family
+	rows  map[string][]row
+	crowd bool
+	idx   map[string]map[string][]row // lookup cache: model|fields -> typed tuple text -> rows (table order)
+	desc  string                      // compact description (wide graphs), "" = render every row
 }
 
 // lookup returns the rows of a model whose tuple over fields equals key (typed
@@ -658,9 +798,16 @@ var (
 // as one part is non-zero), unless the listed class idkey-zero-part is open: an
 // int 0 is rendered "nil" and a *int 0 "0" by utils.ToStringKey, so relations
 // whose two sides differ in pointer-ness fail on it.
-func drawPart(rt *rapid.T, t reflect.Type, label string, composite bool) val {
+func drawPart(rt *rapid.T, t reflect.Type, label string, composite, crowd bool) val {
 	if isStrType(t) {
-		return val{Str: true, S: rapid.SampledFrom(strPool).Draw(rt, label)}
+		s := rapid.SampledFrom(strPool).Draw(rt, label)
+		if crowd { // more distinct keys than the alphabet has
+			s += []string{"", "#1", "#2", "_3"}[rapid.IntRange(0, 3).Draw(rt, label+".suffix")]
+		}
+		return val{Str: true, S: s}
+	}
+	if crowd {
+		return val{I: int64(rapid.IntRange(1, 40).Draw(rt, label))}
 	}
 	v := val{I: rapid.SampledFrom(intPool).Draw(rt, label)}
 	if composite && rapid.IntRange(0, 8).Draw(rt, label+".zero") == 0 {
@@ -766,18 +913,26 @@ func genGraph(rt *rapid.T, f *family, l load) *graph {
 		}
 		return false
 	}
+	// crowd: now and then the child tables are large and their owners few, so that
+	// one parent gets more children than the initial capacity of its slice (10)
+	// and a child query returns more rows than the scanner's first allocation (20)
+	crowd := rapid.IntRange(0, 9).Draw(rt, "crowd") == 0
+	g.crowd = crowd
 	// phase 1: primary keys of the entity tables
 	for _, m := range f.models {
 		if m.isJoin {
 			continue
 		}
 		n := rapid.IntRange(m.minRows, m.maxRows+extraRows()).Draw(rt, m.name+".n")
+		if crowd && len(m.fks) > 0 {
+			n = rapid.IntRange(12, 26).Draw(rt, m.name+".crowd-n")
+		}
 		seen := map[string]bool{}
 		for i := 0; i < n; i++ {
 			r := reflect.New(m.typ)
 			pk := make(tuple, len(m.pk))
 			for j, fn := range m.pk {
-				pk[j] = drawPart(rt, field(r, fn).Type(), fmt.Sprintf("%s[%d].%s", m.name, i, fn), len(m.pk) > 1)
+				pk[j] = drawPart(rt, field(r, fn).Type(), fmt.Sprintf("%s[%d].%s", m.name, i, fn), len(m.pk) > 1, crowd && len(m.fks) > 0)
 			}
 			// hostile by design: sometimes the key is another cut of an existing key's text
 			if len(m.pk) == 2 && len(g.rows[m.name]) > 0 && rapid.IntRange(0, 5).Draw(rt, "resplit") == 0 {
@@ -801,6 +956,12 @@ func genGraph(rt *rapid.T, f *family, l load) *graph {
 				setVal(field(r, fn), pk[j])
 			}
 			field(r, "Tag").SetInt(int64(rapid.IntRange(0, 3).Draw(rt, "tag")))
+			for _, fn := range m.alt {
+				// a referenced non-key column: duplicates are likely, "" (gorm: no value) possible
+				if v := rapid.SampledFrom([]string{"", "a", "a", "b", "a_b", "nil", "0", "日本"}).Draw(rt, fn); v != "" {
+					setVal(field(r, fn), val{Str: true, S: v})
+				}
+			}
 			if lf := reflect.Indirect(r).FieldByName("Label"); lf.IsValid() {
 				// the nullable first column: NULL in about half of the rows
 				if v := rapid.SampledFrom([]string{"", "", "x", "nil"}).Draw(rt, "label"); v != "" {
@@ -839,11 +1000,20 @@ func genGraph(rt *rapid.T, f *family, l load) *graph {
 		t := make(tuple, len(k.fields))
 		switch mode {
 		case "hit":
-			src := targets[rapid.IntRange(0, len(targets)-1).Draw(rt, label+".target")]
+			hi := len(targets) - 1
+			if crowd && hi > 1 {
+				hi = 1
+			}
+			src := targets[rapid.IntRange(0, hi).Draw(rt, label+".target")]
 			copy(t, tupleOf(src, k.tfields))
+			if t.allBlank() { // the referenced column of that row is empty: nothing to point at
+				for i := range t {
+					t[i] = blank(types[i])
+				}
+			}
 		case "dangling":
 			for i := range t {
-				t[i] = drawPart(rt, types[i], fmt.Sprintf("%s.%d", label, i), len(t) > 1)
+				t[i] = drawPart(rt, types[i], fmt.Sprintf("%s.%d", label, i), len(t) > 1, false)
 			}
 			if len(t) == 2 && len(targets) > 0 && rapid.IntRange(0, 2).Draw(rt, label+".resplit") == 0 {
 				var alts []tuple
@@ -863,7 +1033,7 @@ func genGraph(rt *rapid.T, f *family, l load) *graph {
 				copy(t, tupleOf(targets[rapid.IntRange(0, len(targets)-1).Draw(rt, label+".target")], k.tfields))
 			} else {
 				for i := range t {
-					t[i] = drawPart(rt, types[i], fmt.Sprintf("%s.%d", label, i), len(t) > 1)
+					t[i] = drawPart(rt, types[i], fmt.Sprintf("%s.%d", label, i), len(t) > 1, false)
 				}
 			}
 			var nidx []int
@@ -902,6 +1072,9 @@ func genGraph(rt *rapid.T, f *family, l load) *graph {
 				t := drawFK(r, fk{[]string{p.idField}, owner.name, owner.pk}, label, true)
 				setVal(field(r, p.idField), t[0])
 				typ := owner.table
+				if v, ok := p.values[owner.name]; ok {
+					typ = v // polymorphicValue tag on the owner's relation
+				}
 				if rapid.IntRange(0, 4).Draw(rt, label+".foreign-type") == 0 {
 					typ = "zz_other"
 				}
@@ -910,6 +1083,7 @@ func genGraph(rt *rapid.T, f *family, l load) *graph {
 		}
 	}
 	// phase 3: join rows
+	crowd = false
 	for _, m := range f.models {
 		if !m.isJoin {
 			continue
@@ -935,6 +1109,9 @@ func genGraph(rt *rapid.T, f *family, l load) *graph {
 				continue
 			}
 			seen[pk.String()] = true
+			if m.soft && rapid.IntRange(0, 3).Draw(rt, "link-deleted") == 0 {
+				field(r, "DeletedAt").Set(reflect.ValueOf(gorm.DeletedAt{Time: testdb.FixedNow, Valid: true}))
+			}
 			for ki, k := range m.fks {
 				rg.add(roleOf(m.name, k.fields), parts[ki])
 			}
@@ -948,11 +1125,18 @@ func genGraph(rt *rapid.T, f *family, l load) *graph {
 
 var fixedNow = func() time.Time { return testdb.FixedNow }
 
-func openDB() *testdb.DB {
-	return testdb.Open(testdb.Options{Config: gorm.Config{
+func openDB(f *family, queryFields bool) *testdb.DB {
+	d := testdb.Open(testdb.Options{Config: gorm.Config{
 		NowFunc:                                  fixedNow,
 		DisableForeignKeyConstraintWhenMigrating: true,
+		QueryFields:                              queryFields,
 	}})
+	if f.setup != nil {
+		if err := f.setup(d.DB); err != nil {
+			panic("harness: group setup: " + err.Error())
+		}
+	}
+	return d
 }
 
 // schemaDDL migrates the group's models once per process on a scratch database
@@ -962,7 +1146,7 @@ func (f *family) schemaDDL() []string {
 	if f.ddl != nil {
 		return f.ddl
 	}
-	d := openDB()
+	d := openDB(f, false)
 	defer d.Close()
 	for _, m := range f.models {
 		if m.isJoin {
@@ -1012,8 +1196,9 @@ func store(d *testdb.DB, g *graph) error {
 // ---------------------------------------------------------------- the reference join
 
 type scope struct {
-	unscoped bool
-	conds    []*cond
+	unscoped     bool
+	joinUnscoped bool // many to many: soft-deleted join rows are visible
+	conds        []*cond
 }
 
 func (s scope) admits(m *model, r row) bool {
@@ -1021,7 +1206,7 @@ func (s scope) admits(m *model, r row) bool {
 		return false
 	}
 	for _, c := range s.conds {
-		if !c.holds(tagOf(r)) {
+		if !c.holds(r) {
 			return false
 		}
 	}
@@ -1043,7 +1228,11 @@ func (g *graph) related(r *rel, owner row, s scope) []row {
 		}
 	}
 	if r.kind == many2many {
-		for _, j := range g.lookup(g.fam.m(r.join), r.jOwn, own) {
+		jm := g.fam.m(r.join)
+		for _, j := range g.lookup(jm, r.jOwn, own) {
+			if !s.joinUnscoped && isDeleted(jm, j) {
+				continue // the join model soft-deletes its links
+			}
 			key := tupleOf(j, r.jRel)
 			for _, c := range g.lookup(tm, r.tgt, key) {
 				match(c, key)
@@ -1061,7 +1250,7 @@ func (g *graph) related(r *rel, owner row, s scope) []row {
 
 // attached returns the records found in association field r of a loaded owner.
 func attached(f *family, r *rel, owner reflect.Value) []row {
-	fv := reflect.Indirect(owner).FieldByName(r.name)
+	fv := field(owner, r.path())
 	switch fv.Kind() {
 	case reflect.Slice:
 		out := make([]row, 0, fv.Len())
@@ -1094,10 +1283,12 @@ func attached(f *family, r *rel, owner reflect.Value) []row {
 	panic("harness: association field kind " + fv.Kind().String())
 }
 
-func renderRows(m *model, rs []row) []string {
+func renderRows(m *model, rs []row) []string { return renderRowsKeep(m, rs, nil) }
+
+func renderRowsKeep(m *model, rs []row, keep func(string) bool) []string {
 	out := make([]string, len(rs))
 	for i, r := range rs {
-		out[i] = rowString(m, r)
+		out[i] = rowRender(m, r, keep)
 	}
 	sort.Strings(out)
 	return out
@@ -1138,8 +1329,18 @@ func (c *checker) checkRecord(m *model, rec reflect.Value, n *node, joined map[s
 	if !mirror.IsValid() {
 		return fmt.Errorf("%s: loaded record %s is not a stored row", path, rowString(m, rec))
 	}
-	if got, want := rowString(m, rec), rowString(m, mirror); got != want {
+	var keep func(string) bool // column subset this record was loaded with (Select in a preload scope)
+	if n != nil {
+		keep = n.keep()
+	}
+	if got, want := rowRender(m, rec, keep), rowRender(m, mirror, keep); got != want {
 		return fmt.Errorf("%s: loaded record %s differs from the stored row %s", path, got, want)
+	}
+	if keep != nil {
+		rest := func(n string) bool { return !keep(n) }
+		if g, z := rowRender(m, rec, rest), rowRender(m, reflect.New(m.typ), rest); g != z {
+			return fmt.Errorf("%s: columns that were not selected are filled: %s", path, g)
+		}
 	}
 	for _, r := range m.rels {
 		tm := f.m(r.target)
@@ -1168,7 +1369,7 @@ func (c *checker) checkRecord(m *model, rec reflect.Value, n *node, joined map[s
 			if !ok {
 				return fmt.Errorf("%s (joined, columns %v%v) of %s: holds %s, reference join gives one of %v", where, js.Select, js.Omit, rowString(m, mirror), act, wants)
 			}
-			if fv := reflect.Indirect(rec).FieldByName(r.name); !(fv.Kind() == reflect.Ptr && fv.IsNil()) {
+			if fv := field(rec, r.path()); !(fv.Kind() == reflect.Ptr && fv.IsNil()) {
 				child := fv
 				if child.Kind() != reflect.Ptr {
 					child = child.Addr()
@@ -1186,7 +1387,7 @@ func (c *checker) checkRecord(m *model, rec reflect.Value, n *node, joined map[s
 			}
 			continue
 		}
-		if fv := reflect.Indirect(rec).FieldByName(r.name); fv.Kind() == reflect.Struct && len(got) == 0 {
+		if fv := field(rec, r.path()); fv.Kind() == reflect.Struct && len(got) == 0 {
 			if g, z := rowString(tm, fv.Addr()), rowString(tm, reflect.New(tm.typ)); g != z {
 				return fmt.Errorf("%s of %s: no key but partly filled: %s", where, rowString(m, mirror), g)
 			}
@@ -1201,20 +1402,20 @@ func (c *checker) checkRecord(m *model, rec reflect.Value, n *node, joined map[s
 				s.conds = []*cond{js.On}
 			}
 			want := c.g.related(r, mirror, s)
-			if err := memberCheck(tm, got, want, where+" (joined)"); err != nil {
+			if err := memberCheck(tm, got, want, where+" (joined)", nil); err != nil {
 				return err
 			}
 		} else if k != nil && k.loaded {
-			s := scope{unscoped: k.unscoped, conds: k.conds}
+			s := scope{unscoped: k.unscoped, joinUnscoped: k.outerUnscoped, conds: k.conds}
 			want := c.g.related(r, mirror, s)
 			if top {
 				c.note(r, mirror, want)
 			}
 			if r.toOne() {
-				if err := memberCheck(tm, got, want, where); err != nil {
+				if err := memberCheck(tm, got, want, where, k.keep()); err != nil {
 					return err
 				}
-			} else if gs, ws := renderRows(tm, got), renderRows(tm, want); !sameMultiset(gs, ws) {
+			} else if gs, ws := renderRowsKeep(tm, got, k.keep()), renderRowsKeep(tm, want, k.keep()); !sameMultiset(gs, ws) {
 				return fmt.Errorf("%s of %s: attached %v, reference join gives %v", where, rowString(m, mirror), gs, ws)
 			}
 		} else {
@@ -1234,15 +1435,15 @@ func (c *checker) checkRecord(m *model, rec reflect.Value, n *node, joined map[s
 
 // memberCheck: a to-one field holds one of the candidate rows, and holds none
 // only if there is no candidate.
-func memberCheck(tm *model, got, want []row, where string) error {
-	ws := renderRows(tm, want)
+func memberCheck(tm *model, got, want []row, where string, keep func(string) bool) error {
+	ws := renderRowsKeep(tm, want, keep)
 	if len(got) == 0 {
 		if len(want) != 0 {
 			return fmt.Errorf("%s: nothing attached, reference join gives %v", where, ws)
 		}
 		return nil
 	}
-	gs := rowString(tm, got[0])
+	gs := rowRender(tm, got[0], keep)
 	for _, w := range ws {
 		if w == gs {
 			return nil
@@ -1339,7 +1540,16 @@ func newDest(m *model, shape string) reflect.Value {
 }
 
 func colName(db *gorm.DB, fieldName string) string {
+	if i := strings.LastIndex(fieldName, "."); i >= 0 {
+		// a column of an embedded struct declared with embeddedPrefix:<field>_
+		return strings.ToLower(fieldName[:i]) + "_" + db.NamingStrategy.ColumnName("", fieldName[i+1:])
+	}
 	return db.NamingStrategy.ColumnName("", fieldName)
+}
+
+// gormFieldName is the name gorm knows a (possibly embedded) field by.
+func gormFieldName(fieldName string) string {
+	return fieldName[strings.LastIndex(fieldName, ".")+1:]
 }
 
 func curCol(name string) clause.Column { return clause.Column{Table: clause.CurrentTable, Name: name} }
@@ -1359,7 +1569,7 @@ func addJoin(tx *gorm.DB, d *testdb.DB, g *graph, root *model, j joinSpec) *gorm
 			if j.DBNames {
 				return colName(d.DB, fn)
 			}
-			return fn
+			return gormFieldName(fn)
 		}
 		if len(j.Select) > 0 {
 			cols := make([]string, len(j.Select))
@@ -1398,7 +1608,7 @@ func addJoin(tx *gorm.DB, d *testdb.DB, g *graph, root *model, j joinSpec) *gorm
 // first n association joins.
 func buildBase(d *testdb.DB, g *graph, l load, n int) *gorm.DB {
 	root := g.fam.m(l.Root)
-	tx := d.Session(&gorm.Session{})
+	tx := d.Session(&gorm.Session{PrepareStmt: l.PrepareStmt})
 	if l.Unscoped {
 		tx = tx.Unscoped()
 	}
@@ -1427,7 +1637,11 @@ func finishQuery(tx *gorm.DB, d *testdb.DB, g *graph, l load, n int, extraPad bo
 	for _, p := range l.Preloads {
 		var args []interface{}
 		if p.Cond != nil {
-			args = p.Cond.args()
+			var tm *model
+			if p.Path != clause.Associations {
+				_, _, tm = pathTarget(g.fam, root, p.Path)
+			}
+			args = p.Cond.args(tm)
 		}
 		tx = tx.Preload(p.Path, args...)
 	}
@@ -1706,7 +1920,7 @@ func checkAssocFind(d *testdb.DB, g *graph, l load) (string, bool) {
 			parents.Elem().Set(reflect.Append(parents.Elem(), first)) // the same pointer twice
 		}
 	}
-	tx := d.Session(&gorm.Session{})
+	tx := d.Session(&gorm.Session{PrepareStmt: l.PrepareStmt})
 	if l.Unscoped {
 		tx = tx.Unscoped()
 	}
@@ -1721,9 +1935,9 @@ func checkAssocFind(d *testdb.DB, g *graph, l load) (string, bool) {
 		out = reflect.New(reflect.SliceOf(tm.typ))
 	}
 	var args []interface{}
-	s := scope{unscoped: l.Unscoped}
+	s := scope{unscoped: l.Unscoped, joinUnscoped: l.Unscoped}
 	if l.Cond != nil {
-		args = l.Cond.args()
+		args = l.Cond.args(tm)
 		s.conds = []*cond{l.Cond}
 	}
 	if err := as.Find(out.Interface(), args...); err != nil {
@@ -1784,7 +1998,7 @@ type outcome struct {
 }
 
 func runCase(g *graph, l load) outcome {
-	d := openDB()
+	d := openDB(g.fam, l.QueryFields)
 	defer d.Close()
 	o := outcome{desc: g.String() + " load " + l.String()}
 	if err := store(d, g); err != nil {
@@ -1813,6 +2027,15 @@ func classesOf(g *graph, l load) []string {
 	}
 	if l.Unscoped {
 		set["scope:root-unscoped"] = true
+	}
+	if g.crowd {
+		set["size:crowded-children"] = true
+	}
+	if l.QueryFields {
+		set["config:query-fields"] = true
+	}
+	if l.PrepareStmt {
+		set["config:prepare-stmt"] = true
 	}
 	if l.Shared {
 		set["handle:shared-base-two-derived-queries"] = true
@@ -1865,8 +2088,7 @@ func classesOf(g *graph, l load) []string {
 			}
 			for _, c := range scalarFields(tm) {
 				if keep(c) {
-					sf, _ := tm.typ.FieldByName(c)
-					if nullable(sf.Type) || sf.Type == deletedAtT {
+					if ft := fieldType(tm, c); nullable(ft) || ft == deletedAtT {
 						set["joins-columns:first-column-nullable"] = true
 					}
 					break
@@ -1896,7 +2118,10 @@ func classesOf(g *graph, l load) []string {
 			}
 			continue
 		}
-		parts := strings.Split(p.Path, ".")
+		parts := relSegments(p.Path)
+		if strings.Contains(p.Path, "Extra.") {
+			set["path:preload-embedded-name"] = true
+		}
 		r := kindOf(root, parts[0])
 		set["kind:"+r.kind] = true
 		if r.self {
@@ -1947,6 +2172,9 @@ func classesOf(g *graph, l load) []string {
 		for _, r := range g.rows[m.name] {
 			if isDeleted(m, r) {
 				set["data:soft-deleted-row"] = true
+				if m.isJoin {
+					set["data:soft-deleted-join-row"] = true
+				}
 			}
 			if lf := reflect.Indirect(r).FieldByName("Label"); lf.IsValid() && lf.IsNil() {
 				set["data:null-first-column"] = true
@@ -1983,9 +2211,56 @@ func genCond(rt *rapid.T, label string, forms []string) *cond {
 	return &cond{Form: rapid.SampledFrom(forms).Draw(rt, label+".form"), K: rapid.IntRange(0, 3).Draw(rt, label+".k")}
 }
 
+// pathTarget walks a preload path and returns the model owning its last
+// relation, that relation and the model it loads.
+func pathTarget(f *family, root *model, path string) (*model, *rel, *model) {
+	cur := root
+	var owner *model
+	var r *rel
+	for _, seg := range relSegments(path) {
+		owner, r = cur, cur.rel(seg)
+		cur = f.m(r.target)
+	}
+	return owner, r, cur
+}
+
+// genCondFor draws a condition for one relation (model-specific forms allowed).
+func genCondFor(rt *rapid.T, label string, forms []string, r *rel, tm *model) *cond {
+	c := genCond(rt, label, forms)
+	switch c.Form {
+	case "inline-pk":
+		if len(tm.pk) != 1 || fieldType(tm, tm.pk[0]).Kind() != reflect.Uint {
+			c.Form = "inline-expr" // primary-key conditions: models with one integer key
+			break
+		}
+		c.IDs = rapid.SliceOfNDistinct(rapid.SampledFrom(intPool), 1, 4, func(x int64) int64 { return x }).Draw(rt, label+".ids")
+		sort.Slice(c.IDs, func(i, j int) bool { return c.IDs[i] < c.IDs[j] })
+	case "scope-select":
+		// the relation's key columns stay selected (gorm needs them to assign the
+		// rows), so do the primary key and Tag; the other columns are drawn
+		must := map[string]bool{"Tag": true}
+		for _, x := range tm.pk {
+			must[x] = true
+		}
+		for _, x := range r.tgt {
+			must[x] = true
+		}
+		if r.polyField != "" {
+			must[r.polyField] = true
+		}
+		for _, x := range scalarFields(tm) {
+			if must[x] || rapid.IntRange(0, 2).Draw(rt, label+".col."+x) == 0 {
+				c.Cols = append(c.Cols, x)
+			}
+		}
+	}
+	return c
+}
+
 var (
-	preloadForms = []string{"inline-gte", "inline-in", "inline-map", "scope-ne", "scope-gte-order", "scope-unscoped"}
-	inlineForms  = []string{"inline-gte", "inline-in", "inline-map"}
+	preloadForms = []string{"inline-gte", "inline-in", "inline-map", "inline-struct", "inline-expr", "inline-pk", "scope-ne", "scope-gte-order", "scope-unscoped", "scope-select"}
+	assocForms   = []string{"inline-gte", "inline-in", "inline-map", "inline-expr", "scope-ne", "scope-gte-order", "scope-unscoped"} // model-free forms (clause.Associations)
+	inlineForms  = []string{"inline-gte", "inline-in", "inline-map", "inline-struct", "inline-expr", "inline-pk"}
 	onForms      = []string{"on-gte", "on-struct"}
 )
 
@@ -2002,6 +2277,8 @@ func genLoad(rt *rapid.T, f *family, wide bool) load {
 		}
 	}
 	l.Unscoped = rapid.IntRange(0, 7).Draw(rt, "unscoped") == 0
+	l.QueryFields = rapid.IntRange(0, 7).Draw(rt, "query-fields") == 0
+	l.PrepareStmt = rapid.IntRange(0, 7).Draw(rt, "prepare-stmt") == 0
 	if wide {
 		// more than a thousand parents of the user model in one slice
 		l.Root, l.Dup, l.MinTag = f.name+"User", false, 0
@@ -2022,7 +2299,8 @@ func genLoad(rt *rapid.T, f *family, wide bool) load {
 		l.Assoc = rapid.SampledFrom(names).Draw(rt, "assoc")
 		l.OutPtr = rapid.Bool().Draw(rt, "out-ptr")
 		if rapid.Bool().Draw(rt, "with-cond") {
-			l.Cond = genCond(rt, "cond", inlineForms)
+			ar := root.rel(l.Assoc)
+			l.Cond = genCondFor(rt, "cond", inlineForms, ar, f.m(ar.target))
 		}
 		return l
 	}
@@ -2089,12 +2367,18 @@ func genLoad(rt *rapid.T, f *family, wide bool) load {
 		default:
 			p.Path = clause.Associations
 		}
-		if used[p.Path] || isJoined(l, p.Path) {
+		if norm := strings.Join(relSegments(p.Path), "."); used[norm] || isJoined(l, norm) {
 			continue // named twice, or a joined relation (Joins fills it; Preload of it is skipped by gorm)
+		} else {
+			used[norm] = true
 		}
-		used[p.Path] = true
 		if rapid.IntRange(0, 9).Draw(rt, "preload.with-cond") < 4 {
-			p.Cond = genCond(rt, "preload.cond", preloadForms)
+			if p.Path == clause.Associations {
+				p.Cond = genCond(rt, "preload.cond", assocForms)
+			} else {
+				_, pr, ptm := pathTarget(f, root, p.Path)
+				p.Cond = genCondFor(rt, "preload.cond", preloadForms, pr, ptm)
+			}
 		}
 		l.Preloads = append(l.Preloads, p)
 	}
@@ -2106,8 +2390,23 @@ func genLoad(rt *rapid.T, f *family, wide bool) load {
 	// which no documentation states either way - the combination is not generated.
 	underJoined := false
 	for _, p := range l.Preloads {
-		if parts := strings.Split(p.Path, "."); len(parts) >= 2 && isJoined(l, parts[0]) {
+		if parts := relSegments(p.Path); len(parts) >= 2 && isJoined(l, parts[0]) {
 			underJoined = true
+		}
+	}
+	// a column subset (scope-select) only on a relation nothing is nested below
+	// (nested levels need that level's other key columns)
+	for i := range l.Preloads {
+		p := &l.Preloads[i]
+		if p.Cond == nil || p.Cond.Form != "scope-select" {
+			continue
+		}
+		mine := strings.Join(relSegments(p.Path), ".")
+		for _, q := range l.Preloads {
+			if strings.HasPrefix(strings.Join(relSegments(q.Path), "."), mine+".") {
+				p.Cond = &cond{Form: "scope-ne", K: p.Cond.K}
+				break
+			}
 		}
 	}
 	// shared reusable handle (needs a last association join to add on top of it)
@@ -2124,7 +2423,7 @@ func genLoad(rt *rapid.T, f *family, wide bool) load {
 			sib := joinSpec{Rel: rapid.SampledFrom(free).Draw(rt, "shared.sibling"), Inner: rapid.IntRange(0, 3).Draw(rt, "shared.sibling.inner") == 0}
 			under := false
 			for _, p := range l.Preloads {
-				if strings.HasPrefix(p.Path, sib.Rel+".") || p.Path == sib.Rel {
+				if np := strings.Join(relSegments(p.Path), "."); strings.HasPrefix(np, sib.Rel+".") || np == sib.Rel {
 					under = true // the sibling would turn a preloaded relation into a joined one
 				}
 			}
@@ -2140,7 +2439,7 @@ func genLoad(rt *rapid.T, f *family, wide bool) load {
 		j := &l.Joins[ji]
 		carrier := false
 		for _, p := range l.Preloads {
-			if strings.HasPrefix(p.Path, j.Rel+".") {
+			if strings.HasPrefix(strings.Join(relSegments(p.Path), "."), j.Rel+".") {
 				carrier = true
 			}
 		}
@@ -2182,10 +2481,40 @@ func genLoad(rt *rapid.T, f *family, wide bool) load {
 	}
 	for i := range l.Preloads {
 		p := &l.Preloads[i]
-		if assocInline && p.Path != clause.Associations && !strings.Contains(p.Path, ".") && p.Cond != nil && strings.HasPrefix(p.Cond.Form, "inline-") &&
+		if assocInline && p.Path != clause.Associations && len(relSegments(p.Path)) == 1 && p.Cond != nil && strings.HasPrefix(p.Cond.Form, "inline-") &&
 			harness.OpenClass("C11", "assoc-inline-conds-concat") {
 			p.Cond = nil
 			evid.Excluded("assoc-inline-conds-concat")
+		}
+	}
+	// listed finding assoc-embedded-dup: clause.Associations registers a relation
+	// that lives in an embedded struct twice - under its own name (Relations) and
+	// under the embedded struct's name (EmbeddedRelations) - and it is preloaded
+	// twice. (a) an inline condition given to clause.Associations reaches that
+	// relation's query twice (append(preloads[name], associationsConds...)):
+	// SQLite ignores surplus scalar arguments of a plain query, a prepared statement
+	// (or an argument-counting driver) fails with "expected 2 arguments, got 4",
+	// and a slice argument ("tag IN ?") fails on the plain query too; (b) a nested
+	// path spelled through the embedded name ("Extra.Mentor.Pets") is loaded first
+	// and then wiped by the second, un-nested preload of "Mentor".
+	hasAssoc := false
+	for _, p := range l.Preloads {
+		hasAssoc = hasAssoc || p.Path == clause.Associations
+	}
+	if hasAssoc && f.name == "A" && l.Root == "AUser" && harness.OpenClass("C11", "assoc-embedded-dup") {
+		for i := range l.Preloads {
+			p := &l.Preloads[i]
+			switch {
+			case p.Path == clause.Associations && p.Cond != nil && p.Cond.Form == "inline-in":
+				p.Cond = nil
+				evid.Excluded("assoc-embedded-dup")
+			case p.Path == clause.Associations && p.Cond != nil && p.Cond.Form == "inline-gte" && l.PrepareStmt:
+				l.PrepareStmt = false
+				evid.Excluded("assoc-embedded-dup")
+			case strings.HasPrefix(p.Path, "Extra.") && len(relSegments(p.Path)) > 1:
+				p.Path = strings.TrimPrefix(p.Path, "Extra.")
+				evid.Excluded("assoc-embedded-dup")
+			}
 		}
 	}
 	for i := range l.Preloads {
@@ -2304,10 +2633,18 @@ func genWide(rt *rapid.T, f *family, n int) *graph {
 		if lf := reflect.Indirect(r).FieldByName("Label"); lf.IsValid() && i%2 == 1 {
 			setVal(lf, val{Str: true, S: "x"})
 		}
+		for _, fn := range m.alt {
+			if i%9 != 0 { // a referenced non-key column: shared by pairs of rows, "" now and then
+				setVal(field(r, fn), val{Str: true, S: fmt.Sprintf("n%d", i/2)})
+			}
+		}
 		g.rows[m.name] = append(g.rows[m.name], r)
 		return r
 	}
 	setFK := func(r row, fields []string, src row, tfields []string) {
+		if tupleOf(src, tfields).allBlank() {
+			return // the referenced column of that row is empty
+		}
 		for j, v := range tupleOf(src, tfields) {
 			setVal(field(r, fields[j]), v)
 		}
@@ -2495,6 +2832,21 @@ func TestC11WitnessAssocInlineCondsConcat(t *testing.T) {
 	witness(t, g, load{Mode: "query", Root: "AUser", Shape: "slice", Preloads: []preloadSpec{
 		{Path: "Boss", Cond: &cond{Form: "inline-gte", K: 0}},
 		{Path: clause.Associations, Cond: &cond{Form: "inline-gte", K: 1}},
+	}})
+}
+
+// Preload(clause.Associations, "tag >= ?", 0) on a model with a relation inside
+// an embedded struct (AUser.Extra.Mentor), through a prepared-statement session:
+// the condition's arguments reach the Mentor query twice.
+func TestC11WitnessAssocEmbeddedDup(t *testing.T) {
+	one := uint(1)
+	g := graphOf(famByName("A"), &AUser{ID: 1, Tag: 1, Extra: AExtra{MentorID: &one}}, &APet{ID: 1, UserID: &one})
+	witness(t, g, load{Mode: "query", Root: "AUser", Shape: "slice", Preloads: []preloadSpec{
+		{Path: "Extra.Mentor.Pets"}, {Path: clause.Associations},
+	}}, load{Mode: "query", Root: "AUser", Shape: "slice", PrepareStmt: true, Preloads: []preloadSpec{
+		{Path: clause.Associations, Cond: &cond{Form: "inline-gte", K: 0}},
+	}}, load{Mode: "query", Root: "AUser", Shape: "slice", Preloads: []preloadSpec{
+		{Path: clause.Associations, Cond: &cond{Form: "inline-in", K: 0}},
 	}})
 }
 
